@@ -1,6 +1,6 @@
 //@ target: crates/compiler/src/color/mod.rs
 //@ module: verif_kani_c15
-//@ props: C15
+//@ props: C15 C09
 //! Channel range invariants of the clamping constructors and accessors (C15 mech
 //! 1), over ALL f64 inputs including NaN and infinities (loop-free: K-full).
 use crate::value::verif_kani_support::{epsilon_const, inverse_epsilon_const};
